@@ -21,6 +21,7 @@ INVARIANTS
   NoLostUpdate
   IncrementsPermutation
   OutcomeIsSerial
+  OutcomeInSerialSet
   IndependentRunsEqualSequential
   FailureLeavesContent
   QuiescentAtEnd
